@@ -19,17 +19,20 @@ SCALES = ("none", "p6", "pm6", "q6", "qm6")
 
 
 # ----------------------------------------------------------------------------- model checking
+NO_MARKS = ("DoMarkNewer", "DoMarkStale", "MarkNewer", "MarkStale")
+
+
 def model_check(ctx, with_fills_model):
-    if ctx.quick:
-        ctx.tlc_mc(MODULE, "MC_Position.cfg", timeout=600)
+    """Small configurations with -coverage (vacuity: every arm of Fill and both Mark actions taken);
+    the deeper thorough configurations without it (-coverage makes TLC 3-7x slower here)."""
+    ctx.tlc_mc(MODULE, "MC_Position.cfg", timeout=600)
+    if with_fills_model:
+        ctx.tlc_mc(MODULE, "MC_Position_fills.cfg", timeout=600, ignore_uncovered=NO_MARKS)
+    if not ctx.quick:
+        ctx.tlc_mc(MODULE, "MC_Position_thorough.cfg", timeout=1500, coverage=False)
         if with_fills_model:
-            ctx.tlc_mc(MODULE, "MC_Position_fills.cfg", timeout=600,
-                       ignore_uncovered=("DoMarkNewer", "DoMarkStale", "MarkNewer", "MarkStale"))
-    else:
-        ctx.tlc_mc(MODULE, "MC_Position_thorough.cfg", timeout=1500)
-        if with_fills_model:
-            ctx.tlc_mc(MODULE, "MC_Position_fills_thorough.cfg", timeout=2400,
-                       ignore_uncovered=("DoMarkNewer", "DoMarkStale", "MarkNewer", "MarkStale"))
+            ctx.tlc_mc(MODULE, "MC_Position_fills_thorough.cfg", timeout=1500, coverage=False)
+            ctx.tlc_mc(MODULE, "MC_Position_fills_deep.cfg", timeout=1500, coverage=False)
 
 
 def generate(ctx, cfg, name, simulate=None):
